@@ -118,6 +118,10 @@ class Module:
         self.name = rng.choice(["top", "m", "circ_1"])
         ni = rng.randint(1, 4)
         pools = ["a", "b", "c", "d", "in_0", "in_1", "\\esc.a", "\\1x"] if not restricted else ["a", "b", "c", "d", "in_0", "in_1"]
+        if not restricted and rng.random() < 0.12:
+            # operand names that alias when joined with "_" (and_s_s_s_s_s is both (s, s_s_s_s) and (s_s, s_s_s))
+            pools = rng.choice([["s", "s_s", "s_s_s", "s_s_s_s"], ["x", "x_y", "y", "y_z", "z"]])
+            ni = min(max(ni, 3), len(pools))
         adv = ["not_a", "and_a_b", "or_a_b", "xor_a_b", "tie_0", "tie_1", "mux_o_a_b_c", "not_b", "g_0", "and_a_b_0", "w_input",
                "x_output", "assign_q"]
         if plant:
